@@ -274,8 +274,8 @@ type PErrCase struct {
 	Exact  bool            `json:"exact"`  // the parser must reject exactly at token First
 	// NoLookahead: token First is the second word of a compound keyword (GROUP BY): the word before it is
 	// part of what the parser accepted, so the location must be exactly First's
-	NoLookahead bool `json:"no_lookahead,omitempty"`
-	Kind   string          `json:"kind"`
+	NoLookahead bool   `json:"no_lookahead,omitempty"`
+	Kind        string `json:"kind"`
 }
 
 func oraclePErr(c PErrCase) error {
